@@ -400,3 +400,71 @@ func VerifC13Storm() {
 		verifapi.Assert(verifapi.Same(got, pre), "c13.storm.refused-operation-changes-nothing")
 	}
 }
+
+// VerifC13ReadBack: what the driver acknowledged is what a new driver
+// instance over the same database reads back - checked against the values
+// themselves, not against another run of the driver: node records, peer sets,
+// wallet links in both directions (IsAccountNode and the wallet's node list),
+// balances by node and by wallet, accepted nonces. The node ids are real ids
+// of every leading hex digit class (the keys are built from them).
+func VerifC13ReadBack() {
+	all := []store.NodeID{store.NodeID(verifapi.NodeID(0)), store.NodeID(verifapi.NodeID(1)), store.NodeID(verifapi.NodeID(2)), store.NodeID(verifapi.NodeID(3)), store.NodeID(verifapi.NodeID(4))}
+	host := all[verifapi.Choose("host", len(all))]
+	client := all[verifapi.Choose("client", len(all))]
+	verifapi.Assume(host != client)
+	wal := store.Account(verifapi.Wallet(verifapi.Choose("wallet", 3)))
+	t0 := verifapi.Time("t0")
+	verifapi.SetNow(t0)
+	s := verifOpen()
+	hn := store.Node{ID: host, IsHost: true, Kind: "geth", URI: "enode://" + string(host) + "@192.0.2.1:30303", LastSeen: t0, Payout: wal}
+	cn := store.Node{ID: client, Kind: "parity", LastSeen: t0}
+	ok := s.SetNode(hn) == nil && s.SetNode(cn) == nil
+	earned, spent := verifapi.BigInt("earned"), verifapi.BigInt("spent")
+	ok = ok && s.AddNodeBalance(host, earned) == nil && s.AddNodeBalance(client, spent) == nil
+	ok = ok && s.AddAccountNode(wal, host) == nil
+	linkBoth := verifapi.Bool("client-linked-too")
+	if linkBoth {
+		ok = ok && s.AddAccountNode(wal, client) == nil
+	}
+	_, err := s.UpdateNodePeers(client, []string{string(host)}, 7)
+	ok = ok && err == nil
+	nonce := verifapi.Int64("nonce")
+	verifapi.Assume(nonce > t0.UnixNano()-int64(store.ExpireNonce) && nonce <= t0.UnixNano())
+	ok = ok && s.CheckAndSaveNonce(string(client), nonce) == nil
+	verifapi.Assert(ok, "c13.readback.setup-acknowledged")
+	// the pool is closed and reopened
+	re := &badgerStore{db: s.db, nonceExpire: s.nonceExpire}
+	verifapi.Reach("c13.readback")
+	got, err := re.GetNode(host)
+	verifapi.Assert(err == nil && got.ID == host && got.IsHost && got.Kind == "geth" && got.URI == hn.URI && got.Payout == wal, "c13.readback.node")
+	gc, err := re.GetNode(client)
+	verifapi.Assert(err == nil && gc.ID == client && !gc.IsHost && gc.Kind == "parity" && gc.BlockNumber == 7, "c13.readback.node")
+	peers, err := re.NodePeers(client)
+	verifapi.Assert(err == nil && len(peers) == 1 && peers[0].ID == host, "c13.readback.peers")
+	verifapi.Assert(re.IsAccountNode(wal, host) == nil, "c13.readback.link")
+	verifapi.Assert((re.IsAccountNode(wal, client) == nil) == linkBoth, "c13.readback.link")
+	nodes, err := re.GetAccountNodes(wal)
+	want := 1
+	if linkBoth {
+		want = 2
+	}
+	verifapi.Assert(err == nil && len(nodes) == want, "c13.readback.wallet-node-list")
+	for _, n := range nodes {
+		verifapi.Assert(n == host || (linkBoth && n == client), "c13.readback.wallet-node-list")
+	}
+	wb, err := re.GetAccountBalance(wal)
+	total := new(big.Int).Set(earned)
+	if linkBoth {
+		total.Add(total, spent)
+	}
+	verifapi.Assert(err == nil && wb.Credit.Cmp(total) == 0, "c13.readback.balance")
+	hb, err := re.GetNodeBalance(host)
+	verifapi.Assert(err == nil && hb.Credit.Cmp(total) == 0, "c13.readback.balance")
+	cb, err := re.GetNodeBalance(client)
+	if linkBoth {
+		verifapi.Assert(err == nil && cb.Credit.Cmp(total) == 0, "c13.readback.balance")
+	} else {
+		verifapi.Assert(err == nil && cb.Credit.Cmp(spent) == 0, "c13.readback.balance")
+	}
+	verifapi.Assert(re.CheckAndSaveNonce(string(client), nonce) != nil, "c13.readback.nonce")
+}
